@@ -127,7 +127,8 @@ def handle (req : J) : J :=
            | .ok (r, used) =>
              let unused := (allDefinitions ss.flatten).filter (fun (d : Str × Meta × List Word) =>
                match d.2.1.id with | some i => !used.contains i | none => true)
-             okJ (.arr [r.toJ, .arr (unused.map fun d => .arr [J.text d.1, J.optNat d.2.1.line])])))
+             let ex : J := if diff then .null else resJ PVal.toJ (extractObj envs 1000 r)
+             okJ (.arr [r.toJ, .arr (unused.map fun d => .arr [J.text d.1, J.optNat d.2.1.line]), ex])))
      | _, _, _, _ => .str "bad-request")
   | .arr [.str "extract", mt, ej, fj] =>
     (match mt.getStr, envsOfJ ej fj with
@@ -181,6 +182,8 @@ def handle (req : J) : J :=
               | .error e => e.toJ
               | .ok v => okJ (.arr ((nodePaths 1000 [some []] v).map J.text)))))
      | _, _, _ => .str "bad-request")
+  | .arr [.str "isspace_table"] =>
+    okJ (.arr (((List.range 0x110000).filter (fun (n : Nat) => (decide (n < 0xD800) || decide (n > 0xDFFF)) && isSpace (Char.ofNat n))).map (fun (n : Nat) => J.num (Int.ofNat n))))
   | _ => .str "bad-op"
 
 partial def loop (h : IO.FS.Stream) (out : IO.FS.Stream) : IO Unit := do
